@@ -204,7 +204,7 @@ def run(prog: Program, res: Result, tier: str) -> None:
             pol = not pol
         return pol and isinstance(t, ast.BinOp) and isinstance(t.op, ast.Mod) and norm(t.left) == "self.header.nchans" and norm(t.right) == nsub_txt
     preps_s = prep_calls(fn)
-    facts_s = [pcs.truth(p_, divides_nsub) for p_ in preps_s]
+    facts_s = [pcs.truth(p_, divides_nsub) or pcs.truth(p_, divides_nsub, expanded=True) for p_ in preps_s]
     key = "subband:nsub-guard"
     if preps_s and all(f_ is not None and _rej7(pcs, f_) is not None for f_ in facts_s):
         res.ok("R4", fn, preps_s[0], "a sub-band count that does not divide nchans is rejected before the output file is created", key=key)
@@ -246,6 +246,69 @@ def run(prog: Program, res: Result, tier: str) -> None:
 
     # ---- extract_chans ---------------------------------------------------------------------------------------------------
     op, lp = _single_loop(prog, "extract_chans")
+    # every selected channel lies in the band, or nothing is written (F55): a negative index would otherwise select a
+    # channel from the other end of the band and label it outside the band
+    fn_c = op.fn
+    pcs_c = _pc7(op.flow)
+
+    def _parts(x: ast.AST) -> set[str]:
+        """Which ends of the band the element-wise test `x` finds a channel beyond."""
+        if isinstance(x, ast.Call) and dotted(x.func) in ("np.logical_or", "np.bitwise_or") and len(x.args) == 2:
+            return _parts(x.args[0]) | _parts(x.args[1])
+        if isinstance(x, ast.BinOp) and isinstance(x.op, ast.BitOr):
+            return _parts(x.left) | _parts(x.right)
+        if isinstance(x, ast.Compare) and len(x.ops) == 1:
+            l_, o_, r_ = x.left, x.ops[0], x.comparators[0]
+            if isinstance(o_, (ast.Gt, ast.GtE)):
+                l_, r_, o_ = r_, l_, {ast.Gt: ast.Lt, ast.GtE: ast.LtE}[type(o_)]()
+            lt, rt = norm(l_), norm(r_)
+            nch = ("self.header.nchans", "self.header.nchans - 1")
+            if isinstance(o_, ast.Lt) and rt == "0":
+                return {"low"}
+            if isinstance(o_, ast.LtE) and rt == "-1":
+                return {"low"}
+            if isinstance(o_, ast.LtE) and lt == nch[0]:
+                return {"high"}
+            if isinstance(o_, ast.Lt) and lt == nch[1]:
+                return {"high"}
+        return set()
+
+    def _in_band(end: str):
+        def pred(e, pol):
+            if pol:
+                return False
+            x = None
+            if isinstance(e, ast.Call) and dotted(e.func) in ("np.any", "np.sometrue") and len(e.args) == 1:
+                x = e.args[0]
+            elif isinstance(e, ast.Call) and isinstance(e.func, ast.Attribute) and e.func.attr == "any" and not e.args:
+                x = e.func.value
+            if x is not None:
+                return end in _parts(x)
+            # chans.min() < 0 / chans.max() >= nchans
+            if isinstance(e, ast.Compare) and len(e.ops) == 1:
+                class _Strip(ast.NodeTransformer):
+                    def visit_Call(self, node):  # noqa: N802
+                        self.generic_visit(node)
+                        if isinstance(node.func, ast.Attribute) and node.func.attr in ("min", "max") and not node.args:
+                            return node.func.value
+                        if dotted(node.func) in ("np.min", "np.max", "min", "max") and len(node.args) == 1:
+                            return node.args[0]
+                        return node
+                import copy as _c
+                kinds = {n_.func.attr if isinstance(n_.func, ast.Attribute) else dotted(n_.func).split(".")[-1] for n_ in ast.walk(e) if isinstance(n_, ast.Call)}
+                want = {"low": "min", "high": "max"}[end]
+                return want in kinds and end in _parts(_Strip().visit(_c.deepcopy(e)))
+            return False
+        return pred
+    preps_c = prep_calls(fn_c)
+    okc = bool(preps_c)
+    for p_ in preps_c:
+        for end in ("low", "high"):
+            f_ = pcs_c.truth(p_, _in_band(end), expanded=True)
+            okc = okc and f_ is not None and "ValueError" in (_rej7(pcs_c, f_) or ())
+    (res.ok if okc else res.bad)("R4", fn_c, preps_c[0] if preps_c else fn_c.node, "a selection with any channel below 0 or beyond nchans - 1 is rejected (ValueError) before an output file exists" if okc else
+                                 "extract_chans does not reject a selection as soon as ANY channel is out of range: a negative channel then selects from the other end of the "
+                                 "band, and the file is named and labelled (fch1) for a channel outside the band", construct="extract_chans", key="extract_chans:range-guard")
     fn = op.fn
     hs = [h for h in writer_handles(fn) if h.how == "list"]
     cws = _written(op, lp)
@@ -324,11 +387,13 @@ def run(prog: Program, res: Result, tier: str) -> None:
     depends(res, "R7", prog, tier, "C01", why="the blocks these loops consume come from read_plan: the plan rules of C01 (and, through them, the multi-file stream rules of C02) are re-evaluated here")
     depends(res, "R7", prog, tier, "C06", accept=lambda o: "bandpass" in (o.key or "") or "extract_bpass" in (o.key or "") or "bandpass" in (o.where or ""),
             why="remove_zerodm weights the channels by the bandpass: C06's rules for the bandpass reduction and its kernel are re-evaluated here")
+    depends(res, "R7", prog, tier, "C14", accept=lambda o: "downsample_2d_mean" in (o.key or "") or "downsample_2d_mean" in (o.where or ""),
+            why="Filterbank.downsample writes what the 2-D mean decimator returns: its C14 obligations (definition, float64 accumulator, exact division) are re-evaluated here")
     res.floor("R7", 42)
     res.floor("R1", 5)
     res.floor("R2", 19)
     res.floor("R3", 1)
-    res.floor("R4", 4)
+    res.floor("R4", 5)
     res.floor("R5", 10)
 
 
@@ -445,6 +510,10 @@ def _scratch_big_enough(res, op: StreamOp, fn: FuncInfo, lp, out, tag: str, nch:
 B = "sigpyproc/base.py"
 K = "sigpyproc/core/kernels.py"
 MUTANTS = [
+    {"id": "c07-revert-F55", "file": "sigpyproc/base.py", "expect": "C07.R4",
+     "old": "        if np.any(np.logical_or(chans >= self.header.nchans, chans < 0)):", "new": "        if np.all(np.logical_or(chans >= self.header.nchans, chans < 0)):"},
+    {"id": "c07-chans-guard-upper-only", "file": "sigpyproc/base.py", "expect": "C07.R4",
+     "old": "        if np.any(np.logical_or(chans >= self.header.nchans, chans < 0)):", "new": "        if np.any(chans >= self.header.nchans):"},
     {"id": "c07-revert-F52", "file": "sigpyproc/base.py", "expect": "C07.R4",
      "old": "        if nsub < 1 or self.header.nchans % nsub != 0:\n            msg = f\"Number of sub-bands must divide nchans ({self.header.nchans}): {nsub}\"\n            raise ValueError(msg)\n", "new": ""},
     {"id": "c07-revert-F38", "file": "sigpyproc/base.py", "expect": "C07.R2",
@@ -496,6 +565,10 @@ MUTANTS = [
      "old": "                chan_to_sub,\n                max_delay,\n", "new": "                chan_to_sub,\n                0,\n"},
 ]
 TWINS = [
+    {"id": "c07-twin-chans-guard-minmax", "file": "sigpyproc/base.py",
+     "old": "        if np.any(np.logical_or(chans >= self.header.nchans, chans < 0)):", "new": "        if chans.min() < 0 or chans.max() >= self.header.nchans:"},
+    {"id": "c07-twin-chans-guard-split", "file": "sigpyproc/base.py",
+     "old": "        if np.any(np.logical_or(chans >= self.header.nchans, chans < 0)):", "new": "        if (chans < 0).any() or np.any(chans > self.header.nchans - 1):"},
     {"id": "c07-twin-subband-roomy-scratch", "file": B,
      "old": "        out_ar = np.empty((gulp - max_delay) * nsub, dtype=\"float32\")", "new": "        out_ar = np.empty(gulp * nsub, dtype=\"float32\")"},
     {"id": "c07-twin-ds-temp", "file": B,
